@@ -18,6 +18,9 @@ type runner func(items []vlib.Sx) (impl, fail, sig string, err error)
 
 var runners = map[string]runner{}
 
+// stats counts events inside the runners that are worth showing in the evidence.
+var stats = map[string]int{}
+
 // runLine re-executes one case line.  A leading "!" (oracle-only case, not
 // given to the model) is ignored here.
 func runLine(line string) (impl, fail, sig string, err error) {
@@ -85,4 +88,7 @@ func Gen(run *vlib.Run, seed uint64, tier string) {
 	genOS2(run, r.Fork("os2"), tier)
 	genDerived(run, r.Fork("derived"), tier)
 	genVersion(run, r.Fork("version"), tier)
+	for k, v := range stats {
+		run.Extra[k] = v
+	}
 }
